@@ -29,8 +29,12 @@ FILES = ['pyglove/core/coding/parsing.py', 'pyglove/core/coding/permissions.py',
 
 FAMILIES = {
     'ASSIGN': ['Assign', 'AugAssign', 'AnnAssign', 'NamedExpr'],
-    'CONDITION': ['If', 'Match'],
-    'LOOP': ['For', 'AsyncFor', 'While'],
+    # IfExp and the comprehension forms were first filed under NOT_GATED ("a judgement"); a
+    # conditional expression is a condition and a comprehension is a loop (it has a for-clause and
+    # runs its element expression once per item), so a program using them with the permission
+    # withheld must be refused like the statement forms
+    'CONDITION': ['If', 'IfExp', 'Match'],
+    'LOOP': ['For', 'AsyncFor', 'While', 'ListComp', 'SetComp', 'DictComp', 'GeneratorExp'],
     'EXCEPTION': ['Try', 'TryStar', 'Raise', 'Assert'],
     'CALL': ['Call'],
     'CLASS_DEFINITION': ['ClassDef'],
@@ -40,7 +44,7 @@ FAMILIES = {
 }
 # classification is a judgement: reported as information, not armed
 NOT_GATED = {
-    'IfExp', 'ListComp', 'SetComp', 'DictComp', 'GeneratorExp', 'BoolOp',
+    'BoolOp',
     'With', 'AsyncWith', 'Delete', 'Await', 'TypeAlias', 'Global', 'Nonlocal',
     # plain expressions / statements with no permission family
     'Expr', 'Pass', 'Break', 'Continue', 'BinOp', 'UnaryOp', 'Dict', 'Set',
@@ -595,8 +599,62 @@ def rule_i(ctx):
     raise AnalysisError('coding/execution.py changed shape')
 
 
+def rule_j(ctx):
+  """An outer permission scope can only be narrowed: `evaluate` hands the validator a
+  permission that was combined with the scope whenever a scope is set.  On the CFG of
+  evaluate: starting at the entry and following only outcomes consistent with "the scope
+  value is not None", the call of parsing.parse is not reachable without passing a
+  definition of its permission argument that reads the scope (get_permission() itself or a
+  local assigned from it).  Pre-fix the scope was read only `if permission is None`, so an
+  explicit `permission=ALL` inside `with permission(BASIC)` ran an import."""
+  idx = ctx.index
+  f = idx.func('pyglove.core.coding.execution.evaluate')
+  g = C.cfg_of(f.node)
+  scope_names = set()
+  for n in ast.walk(f.node):
+    if isinstance(n, ast.Assign) and isinstance(n.value, ast.Call) and (A.call_name(n.value) or '').endswith('get_permission'):
+      scope_names |= set(A.assigned_names(n.targets[0]))
+  parse_nodes = [k for k in g.nodes if k.ast is not None and any((A.call_name(c) or '').endswith('parsing.parse') or A.call_name(c) == 'parse'
+                                                                 for c in k.calls())]
+  if not parse_nodes:
+    raise AnalysisError('evaluate: the call of parsing.parse vanished')
+  pc = [c for c in parse_nodes[0].calls() if (A.call_name(c) or '').endswith('parse')][0]
+  parg = pc.args[1] if len(pc.args) > 1 else A.kwarg(pc, 'permission')
+  if not isinstance(parg, ast.Name):
+    ctx.ob('C19.j', 'evaluate#scope-narrows', False,
+           'with a permission scope set, the permission handed to the validator was combined with the scope on every path',
+           f.loc, f'parsing.parse is handed `{A.unparse(parg) if parg is not None else "nothing"}`, not a permission derived from the scope')
+    return
+  X = parg.id
+  def reads_scope(v):
+    return bool(A.names_read(v) & scope_names) or any(
+        isinstance(c, ast.Call) and (A.call_name(c) or '').endswith('get_permission') for c in ast.walk(v))
+  combining = {k.id for k in g.nodes if k.kind == 'stmt' and isinstance(k.ast, ast.Assign)
+               and X in A.assigned_names(k.ast.targets[0]) and reads_scope(k.ast.value)}
+  # outcomes that say "the scope value is None" are not followed
+  blocked = set()
+  for t in g.nodes:
+    if t.kind == 'test' and isinstance(t.ast, ast.Compare) and len(t.ast.ops) == 1 and isinstance(t.ast.ops[0], (ast.Is, ast.IsNot)) \
+        and isinstance(t.ast.left, ast.Name) and t.ast.left.id in scope_names \
+        and isinstance(t.ast.comparators[0], ast.Constant) and t.ast.comparators[0].value is None:
+      none_lab = 'true' if isinstance(t.ast.ops[0], ast.Is) else 'false'
+      blocked |= {(t.id, m.id, l) for m, l in t.succ if l == none_lab}
+  seen, parent = g.reach(g.entry, blocked_nodes=combining, blocked_edges=blocked, follow_exc=False)
+  bad = parse_nodes[0].id in seen
+  ctx.ob('C19.j', 'evaluate#scope-narrows', bool(combining) and not bad,
+         'with a permission scope set, the permission handed to the validator was combined with the scope on every path',
+         f.loc, 'a path reaches parsing.parse with the caller\'s `permission` argument alone: ' +
+         (str(g.witness_str(parent, parse_nodes[0])) if bad else 'the scope is never read') +
+         ' - evaluate(code, permission=ALL) inside `with permission(BASIC)` runs what the scope forbids')
+  # and the combination narrows: `&` of the two, or the scope itself - never `|`
+  widen = [k for k in g.nodes if k.id in combining and any(isinstance(b, ast.BinOp) and isinstance(b.op, ast.BitOr) for b in ast.walk(k.ast.value))]
+  ctx.ob('C19.j', 'evaluate#combination', not widen,
+         'the argument and the scope are combined by intersection', f.loc, 'the combination uses `|` (union widens the scope)')
+
+
 def run(ctx):
   ctx.consult(*FILES)
+  rule_j(ctx)
   rule_a(ctx)
   rule_b(ctx)
   rule_c(ctx)
